@@ -507,6 +507,10 @@ def World.onObs1 (w : World) (toks : List String) : World :=
   -- C02-ish: after a sync from q with nothing rejected, p holds everything q held
   -- C09: a database that was not operated on shows no change (contents, status, emitted events)
   let evS := (arg? toks "events").getD "-"
+  -- C09: every store of the instance emits on one bus: a store event has to say which database it is about
+  let w := match arg? toks "orphan" with
+    | some o => w.fail "C09" "events" s!"peer {p}: store events that name no database were emitted on the shared bus ({o}): a listener of one database cannot tell them from another database's"
+    | none => w
   let w := match arg? toks "db", w.lastOpDb with
     | some _, some opDb =>
       if prev.seen && opDb != w.curDb && (prev.values != iv || prev.status != ist || prev.events != evS || showKV prev.idx != showKV (parseKVs idxS)) then
